@@ -1,3 +1,9 @@
 // Pasted into swarm/src/lib.rs (mod verif) under cfg(kani).
 #[allow(unused_imports)]
 use super::*;
+
+pub(crate) mod c04 {
+    #[allow(unused_imports)]
+    use super::super::*;
+    include!(concat!(env!("LIBP2P_VERIF"), "/units/C04/dial.rs"));
+}
